@@ -62,7 +62,10 @@ def _record(r, wid: int, i: int, big: bool = False) -> Dict[str, Any]:
     if r.chance(0.4):
         rec["now"] = "2023-11-14T22:13:20+00:00"
     if r.chance(0.3):
-        rec["text"] = r.choice(["plain", "uni→ñ日本", "line\nbreak", "quote\"s", "tab\tbed", "ls\u2028sep", "nel\x85", "ps\u2029", "cr\r\n", "ff\x0c\x1c", ""])
+        rec["text"] = r.choice(["plain", "uni→ñ日本", "line\nbreak", "quote\"s", "tab\tbed", "ls\u2028sep", "nel\x85", "ps\u2029", "cr\r\n", "ff\x0c\x1c", "",
+                                # half of a surrogate pair (text cut in the middle of an emoji): a str Python and JSON can both hold;
+                                # kept symbolic in the program, which is written as UTF-8
+                                "$lone_surrogate"])
     if r.chance(0.3):
         rec["durations_ms"] = {"t1": 1.5, "total": 9.25}
     if r.chance(0.3):
@@ -556,7 +559,23 @@ def _capture(p: Dict[str, Any], stats: Dict[str, int]) -> List[Dict[str, Any]]:
     return viol
 
 
+def _resolve(o: Any) -> Any:
+    if isinstance(o, dict):
+        return {k: _resolve(v) for k, v in o.items()}
+    if isinstance(o, list):
+        return [_resolve(v) for v in o]
+    if o == "$lone_surrogate":
+        return "cut \ud83d here"
+    return o
+
+
 def execute(p: Dict[str, Any]) -> Dict[str, Any]:
+    out = _execute(_resolve(p))
+    out["key"] = E.jdigest([p, out.get("sched")])
+    return out
+
+
+def _execute(p: Dict[str, Any]) -> Dict[str, Any]:
     stats: Dict[str, int] = {"target_" + p["target"]: 1}
     sched_d = None
     t = p["target"]
@@ -582,5 +601,5 @@ def execute(p: Dict[str, Any]) -> Dict[str, Any]:
         viol = _rotation(p, stats)
         nontrivial = bool(stats.get("rotations"))
     faults = {"kill_during_rotation": stats.get("kills_fired", 0), "backpressure": stats.get("backpressure_drains", 0)}
-    return {"violations": viol, "stats": stats, "faults": faults, "nontrivial": nontrivial, "key": E.jdigest([p, sched_d]),
-            "sched": sched_d, "sim_s": 0.0, "log": E.jdigest([viol, sched_d])}
+    return {"violations": viol, "stats": stats, "faults": faults, "nontrivial": nontrivial, "key": None,
+            "sched": sched_d, "sim_s": 0.0, "log": E.jdigest([json.loads(json.dumps(viol)), sched_d])}
